@@ -8,6 +8,7 @@ import math
 import random
 
 import numpy as np
+import pandas as pd
 
 from mmv import bootstrap
 from mmv import gen
@@ -17,7 +18,8 @@ from mmv import util
 PROP = 'C15'
 LEVEL = 'exploration'
 RULE = ('Generated long-format frames (1-9 geos, 4-60 dates; shuffled rows; int / mixed-int / numeric-string / '
-        'name IDs; datetime64 or ISO-string dates; missing (geo, date) rows; an extra unrelated column) with '
+        'name IDs, also as object dtype or mixed int/str spellings; datetime64 or ISO-string dates; missing (geo, date) rows; '
+        'positive, negative and mixed-sign responses; extra unrelated columns, some with NaN) with '
         'eligibility tables that are absent, equal to, a strict subset of, or a superset of the geos in the data '
         '(extra geos excludable or not). Checked against a pure-Python pivot: df rows / columns / values / row '
         'order, geo_share, geos_in_data, assignable, reconciliation outcome (drop vs ValueError), and for 3 random '
@@ -51,8 +53,29 @@ def run_case(spec):
   cls = gen.weighted(r, [('continuous', 4), ('gappy', 4), ('integer', 1), ('duplicates', 1)])
   id_style = r.choice(['str', 'int', 'intmix', 'numstr'])
   panel = gen.gen_panel(r, g, G, D, cls=cls, id_style=id_style, date_style=r.choice(['ts', 'iso']))
+  sign = gen.weighted(r, [('positive', 6), ('negative', 1.5), ('mixed', 1.5)])
+  if sign != 'positive':
+    # responses may be negative (net flows, differences); the total may be negative as well
+    v = panel['values'] - (2.0 if sign == 'negative' else 1.0) * float(panel['values'].mean()) * (
+        1.0 if sign == 'negative' else r.choice([0.9, 1.3]))
+    if abs(float(np.where(panel['present'], v, 0.0).mean(axis=1).sum())) > 1e-6 * float(np.abs(v).mean()):
+      panel['values'] = v
+    else:
+      sign = 'positive'
   resp = r.choice(['response', 'sales', 'y'])
   frame = gen.panel_frame(panel, r, shuffle=True, response=resp, extra_col=r.random() < 0.3)
+  geo_dtype = 'native'
+  u = r.random()
+  if u < 0.15:
+    frame['geo'] = frame['geo'].astype(object)            # same IDs, object dtype
+    geo_dtype = 'object'
+  elif u < 0.25 and id_style in ('int', 'intmix'):
+    # mixed int / str spellings of different geos in one object column (as after concatenating two sources)
+    half = set(panel['ids'][::2])
+    frame['geo'] = pd.Series([str(v) if v in half else v for v in frame['geo']], dtype=object)
+    geo_dtype = 'mixed'
+  if r.random() < 0.2:
+    frame['spend'] = [float('nan') if r.random() < 0.3 else 2.0 for _ in range(len(frame))]
   ids = [str(i) for i in panel['ids']]
   counters = collections.Counter()
   violations = []
@@ -77,7 +100,7 @@ def run_case(spec):
       if r.random() < 0.5:
         rows['ZZopt'] = 'ctx'
         extra['ZZopt'] = 'ctx'
-  desc = {'geos': ids, 'id_style': id_style, 'n_dates': D, 'panel_class': cls, 'elig_mode': mode,
+  desc = {'geos': ids, 'id_style': id_style, 'sign': sign, 'geo_dtype': geo_dtype, 'n_dates': D, 'panel_class': cls, 'elig_mode': mode,
           'eligibility': rows, 'response_column': resp}
   before = sl.frame_fingerprint(frame)
   elig = None
